@@ -440,7 +440,7 @@ CHECKS = {
     ),
     "C17": dict(
         rule_more='Request workloads also contain the state-label request in its default fire-and-forget mode (only where it must succeed: running source, writing active) immediately followed by ReadComment.',
-        pkg=".", hdir="root", test="TestVerif_C17", wal=True, race=True,
+        pkg=".", hdir="root", test="TestVerif_C17", wal=True, race=True, no_data_panic_undecided=True,
         env={"GORACE": "log_path={work}/race halt_on_error=0 exitcode=0 history_size=3", "VERIF_RACE_LOG": "{work}/race"},
         quick=dict(shards=32, checks=12, timeout=1200),
         thorough=dict(shards=48, checks=500, timeout=5400),
